@@ -1,7 +1,7 @@
 (** C13 - persisting is incremental, writes no garbage, and clean means unchanged.
     Statements only; proofs are in Persist.v / Hist.v. *)
 From Coq Require Import List NArith ZArith Bool.
-From Mast Require Import Prim Key Tree KeyOrder Codec Store Diff World Erase Build Spec Canon Links Level Inv Hist Persist Reload DiffLinks PersistCount WorldInv Clean CleanHist.
+From Mast Require Import Prim Key Tree KeyOrder Codec Store Diff World Erase Build Spec Canon Links Level Inv Hist Persist Reload DiffLinks PersistCount CostW WorldInv Clean CleanHist.
 Import ListNotations.
 
 (** persisting a tree that was not modified since it was loaded or persisted writes nothing at all
@@ -70,11 +70,34 @@ Theorem C13_clean_means_unchanged : forall ops t tr x,
   is_dirty _ _ (t_m tr) = false -> bget (brun [] ([], []) ops) t = Some (at_l x).
 Proof. exact clean_means_unchanged. Qed.
 
-(** PARTIAL: that the unsaved nodes are only those whose key range holds a modified key, and at most
-    2*height+2 of them per modified key, is decided by the oracle on the implementation's recorded
+(** "At most 2*height+2 nodes per modified key": an Insert that leaves the height as it is adds at
+    most 2*height pointer-reachable nodes beyond the root node it started from (generic; [pcount]
+    counts what a persist can have to write) ... *)
+Theorem C13_insert_adds_at_most_2h : forall (K V : Type) (cmp : K -> K -> comparison) (veq : V -> V -> bool)
+    (P : name -> node K V -> Prop),
+  (forall h c, P h c -> allh K V P c) -> (forall h c, P h c -> pcount K V c = 1) ->
+  forall (layer : K -> nat) (m : mast K V) k v, allh_l K V P (m_root _ _ m) ->
+  okp (insert _ _ cmp veq layer m k v)
+      (fun m' => m_height _ _ m' = m_height _ _ m ->
+                 pcount_l K V (m_root _ _ m') <= pcount_l K V (m_root _ _ m) + 1 + 2 * m_height _ _ m).
+Proof. exact insert_count. Qed.
+
+(** ... so one Insert (new key or new value) into a freshly loaded version, followed by a persist,
+    emits at most 2*height+1 Store events *)
+Theorem C13_one_insert_writes_at_most_2h_plus_1 : forall s kind bf (m m' : kmast) k v t fuel f,
+  root_allh s kind m -> (exists h c, m_root _ _ m = LHash h c) ->
+  insert _ _ kcmp bytes_eqb (klayer bf) m k v = (t, Ok m') -> m_height _ _ m' = m_height _ _ m ->
+  forall n', m_root _ _ m' = LPtr n' ->
+  okt (store_node fuel f n') (fun ts _ => length (stored ts) <= 2 * m_height _ _ m + 1).
+Proof. exact insert_then_persist_writes. Qed.
+
+(** PARTIAL: the same bound for a Delete (merge), for batches, and that the unsaved nodes are only
+    those whose key range holds a modified key, is decided by the oracle on the implementation's recorded
     Store calls (tools/oracle.py check_persist) and by the one-sided correspondence of store names
     with the model; it is not proved as a theorem yet. *)
 Print Assumptions C13_noop.
+Print Assumptions C13_insert_adds_at_most_2h.
+Print Assumptions C13_one_insert_writes_at_most_2h_plus_1.
 Print Assumptions C13_insert_leaves_dirty.
 Print Assumptions C13_delete_leaves_dirty.
 Print Assumptions C13_clean_means_unchanged.
